@@ -112,6 +112,9 @@ class PyLib:
             L.append('};')
         # a fixed-size sequence with item assignment: the slot after the last one is a guard
         L += ['class Buf {', '__published:', '  Buf();', '  int size() const;', '  int operator [](int i) const;', '  int &operator [](int i);', '  int guard() const;', 'public:', '  int slots[5];', '};']
+        # coercion: Pt converts implicitly from a string only; its (int, int = 0) constructor is explicit and must never convert an argument
+        L += ['class Pt {', '__published:', '  Pt();', '  Pt(const std::string &s);', '  explicit Pt(int x, int y = 0);', '  Pt(const Pt &o);', '  int get_x() const;', '  int get_y() const;',
+              'public:', '  int x_, y_;', '};', 'class PtUser {', '__published:', '  PtUser();', '  int px(const Pt &p);', '  int calls() const;', 'public:', '  int calls_;', '};']
         L.append('__begin_publish')
         L.append('int live_objects();')
         L.append('std::string last_call();')
@@ -133,7 +136,10 @@ class PyLib:
              'unsigned int echo_u32(unsigned int x) { return x; }', 'double echo_double(double x) { return x; }', 'bool echo_bool(bool x) { return x; }',
              'std::string echo_str(const std::string &x) { return x; }',
              'Buf::Buf() { for (int i = 0; i < 4; ++i) slots[i] = 10 + i; slots[4] = 777; }', 'int Buf::size() const { return 4; }', 'int Buf::operator [](int i) const { return slots[i]; }',
-             'int &Buf::operator [](int i) { return slots[i]; }', 'int Buf::guard() const { return slots[4]; }']
+             'int &Buf::operator [](int i) { return slots[i]; }', 'int Buf::guard() const { return slots[4]; }',
+             'Pt::Pt() : x_(0), y_(0) {}', 'Pt::Pt(const std::string &s) : x_((int)s.size()), y_(-1) {}', 'Pt::Pt(int x, int y) : x_(x), y_(y) {}', 'Pt::Pt(const Pt &o) : x_(o.x_), y_(o.y_) {}',
+             'int Pt::get_x() const { return x_; }', 'int Pt::get_y() const { return y_; }', 'PtUser::PtUser() : calls_(0) {}', 'int PtUser::px(const Pt &p) { ++calls_; return p.x_ * 100 + p.y_; }',
+             'int PtUser::calls() const { return calls_; }']
         for c in self.classes:
             n = c['name']
             binit = ('%s(v + 100), ' % c['base']) if c['base'] else ''
